@@ -73,6 +73,10 @@ def calls(t, sd):
         add("ref_%s" % k, [RF(k)])
         add("ref_%s_x2" % k, [RF(k), A(U64), RF(k)])
         add("ref_%s_x3" % k, [RF(k), RF(k), RF(k)])
+    # one expression object passed for two reference parameters of the same kind: two entries in the foreign array
+    for k in ("account", "asset", "application"):
+        add("ref_%s_sameobj" % k, [RF(k), A(U64), dict(RF(k), same=0)])
+    add("refs_sameobj_mixed", [RF("asset"), RF("account"), dict(RF("asset"), same=0), dict(RF("account"), same=1), A(U64)])
     add("refs_mixed", [RF("account"), RF("asset"), A(STR), RF("application"), RF("account"), RF("asset"), RF("application")])
     # transaction arguments
     for k in ("pay", "axfer", "keyreg", "acfg", "afrz", "appl"):
